@@ -251,6 +251,21 @@ class Valuation:
         self.implied: Dict[str, Any] = {}
         self.trace: List[Tuple[str, Any, Any]] = []
         self.salt = salt
+        # what the forced decisions imply holds from the start, so that atoms met *before* the forced one follow suit
+        if constraints is not None and self.forced:
+            work = [(a, v) for a, v in self.forced.items()]
+            seen = set()
+            while work:
+                a, v = work.pop()
+                if (a, v) in seen:
+                    continue
+                seen.add((a, v))
+                key = a[5:] if a.startswith("LOOP:") else a
+                b = v if isinstance(v, bool) else (v > 0)
+                for c, cv in constraints.forward(key, b):
+                    if c not in self.implied:
+                        self.implied[c] = cv
+                        work.append((c, cv))
 
     def _free_default(self, atom):
         if self.salt is not None:
@@ -1539,20 +1554,48 @@ def cover(ts: TemplateSet, name: str, constraints=None, const_roots=None, max_ru
     infeasible = 0
     runs = 0
     base_forced = dict(base_forced or {})
-    queue: List[Tuple[dict, bool, int, Any]] = [(dict(base_forced), d, ld, None) for d, ld in seeds]
+    queue: List[Tuple[dict, bool, int, Any, Any]] = [(dict(base_forced), d, ld, None, None) for d, ld in seeds]
     errors = []
     attempts: Dict[Any, int] = {}
+    relax: Dict[Any, int] = {}
     while queue and runs < max_runs:
-        forced, default, ld, target = queue.pop(0)
+        forced, default, ld, target, target_atom = queue.pop(0)
         runs += 1
         val = Valuation(forced, default, ld, constraints)
         r = Renderer(ts, val, const_roots, known_roots)
         try:
             sk = r.render(name)
-        except Infeasible:
+        except Infeasible as ex:
             infeasible += 1
-            # the same (site, outcome) may be feasible from another prefix: allow a few more attempts
-            if target is not None and attempts.get(target, 0) < 4:
+            culprit = ex.args[0] if ex.args else None
+            # the target conflicts, through the constraint table, with a decision inherited from the run that scheduled it:
+            # drop that inherited decision (its value is then implied) and try again
+            if target is not None and culprit is not None and relax.get(target, 0) < 6:
+                f2 = dict(forced)
+                dropped = False
+                for c in (culprit, "LOOP:" + culprit, culprit[5:] if culprit.startswith("LOOP:") else None):
+                    if c and c in f2 and c != target_atom and c not in base_forced:
+                        del f2[c]
+                        dropped = True
+                if not dropped and constraints is not None and target_atom is not None:
+                    # the conflicting decision is one the target itself implies: drop every inherited decision that
+                    # contradicts what the target implies through the constraint table
+                    tv = forced.get(target_atom)
+                    key = target_atom[5:] if target_atom.startswith("LOOP:") else target_atom
+                    tb = tv if isinstance(tv, bool) else bool(tv)
+                    for c, cv in constraints.forward(key, tb):
+                        for cc in (c, "LOOP:" + c):
+                            if cc in f2 and cc not in base_forced and cc != target_atom:
+                                have = f2[cc] if isinstance(f2[cc], bool) else f2[cc] > 0
+                                if have != cv:
+                                    del f2[cc]
+                                    dropped = True
+                if dropped:
+                    relax[target] = relax.get(target, 0) + 1
+                    queue.insert(0, (f2, default, ld, target, target_atom))
+                elif attempts.get(target, 0) < 4:
+                    scheduled.discard(target)
+            elif target is not None and attempts.get(target, 0) < 4:
                 scheduled.discard(target)
             continue
         trace = val.trace
@@ -1577,7 +1620,7 @@ def cover(ts: TemplateSet, name: str, constraints=None, const_roots=None, max_ru
                 f2[a] = alt
                 scheduled.add(key)
                 attempts[key] = attempts.get(key, 0) + 1
-                queue.append((f2, default, ld, key))
+                queue.append((f2, default, ld, key, a))
             prefix.setdefault(a, v)
     stats = {"runs": runs, "variants": len(variants), "sites_outcomes": len(covered),
              "infeasible_targets": infeasible, "queue_left": len(queue)}
